@@ -12,7 +12,7 @@ import os
 
 from vlib import tlc, gobuild
 from vlib.core import Inconclusive
-from props import rpcpipe
+from props import rpcpipe, rpcsync
 
 LEVEL = "model_checking"
 MODULE = "RpcHostile"
@@ -30,7 +30,10 @@ def pipeline(ctx, module, limit=None):
         scripts = scripts[:limit]
     drv = gobuild.build(ctx, "rpcdrv")
     tf = os.path.join(sd, "rpctrace.ndjson")
-    found, summ = rpcpipe.run_scripts(ctx, drv, scripts, tf)
+    wire = ctx.path("wire-%s.ndjson" % module)
+    if os.path.exists(wire):
+        os.remove(wire)
+    found, summ = rpcpipe.run_scripts(ctx, drv, scripts, tf, wire=wire)
     with open(tf) as f:
         lines = f.readlines()
     rej = []
@@ -59,6 +62,8 @@ def pipeline(ctx, module, limit=None):
         if len(rej) >= 40:
             ctx.note("validation stopped after %d rejected executions" % len(rej))
             break
+    # the synchronisation skeleton of every connection of these runs (sender lock, tasks, shutdown phases) against RpcSync
+    states += rpcsync.from_file(ctx, sd, wire)
     return scripts, found, summ, rej, states + r.distinct
 
 
